@@ -216,3 +216,29 @@ CHECKS["C13"] = dict(
     outside=["rounding error", "Contains, floor/ceiling", "LambdaComplexDoubleVisitor"],
     assumptions=["real abstraction D6 of floating-point code", "oracle D2 (vlib/vrecipe.h)"],
 )
+
+CHECKS["C18"] = dict(
+    src="C18.cpp", level="model_checking",
+    entries=[
+        dict(name="harness_c18_bytes", quick={"len": 1, "_wall": 200}, thorough={"len": 2, "_wall": 1700}),
+        dict(name="harness_c18_alphabet", quick={"len": 2}, thorough={"len": 3, "_wall": 1700}),
+        dict(name="harness_c18_seeded", quick={}, thorough={}),
+        dict(name="harness_c18_sbml", quick={"len": 1}, thorough={"len": 2, "_wall": 1700}),
+    ],
+    anchors=["SymEngine::Tokenizer::lex", "SymEngine::Parser::parse", "yy::parser::parse", "SymEngine::Parser::parse_identifier"],
+    bounds="every byte string of length 1 (thorough 2) with fully symbolic non-NUL bytes through parse and parse_sbml; every string of length 2 (3) over a 44-character class alphabet (one representative per tokenizer class plus operator/keyword characters and two non-ASCII bytes); 11 grammar seeds with one fully symbolic byte at each of 6 positions; parser reuse after a (failed) parse vs a fresh parser; all memory accesses checked, outcome must be a value or a SymEngineException",
+    outside=["inputs longer than 3 bytes beyond the seeded family", "hangs beyond the instruction budget are reported as inconclusive"],
+)
+
+CHECKS["C17"] = dict(
+    src="C17.cpp", level="model_checking",
+    entries=[
+        dict(name="harness_c17_integers", quick={"maxdigits": 3}, thorough={"maxdigits": 4}),
+        dict(name="harness_c17_floats", quick={}, thorough={}, thorough_only=True),
+        dict(name="harness_c17_syntax", quick={}, thorough={}),
+        dict(name="harness_c17_functions", quick={}, thorough={}),
+    ],
+    anchors=["SymEngine::Parser::parse_numeric", "SymEngine::Tokenizer::lex", "yy::parser::parse", "SymEngine::Parser::functionify"],
+    bounds="integer literals of 1..3 (4) digits, every digit value (leading zeros included); float literals ii.ff, ii.ffe[+-]x, iie[+-]x compared with strtod (thorough); a op1 b op2 c for all 25 operator pairs over 5 atom kinds (symbol, number 0..12, implicit product 3x, function call) with whitespace variations; unary minus against ** and *; ^ as power; 25 one-argument function names, atan2, max, constants",
+    outside=["strings longer than three operands", "relational/logical syntax (C18 exercises it for safety only)"],
+)
